@@ -1,5 +1,6 @@
 """C13 - static priority always serves the highest-priority backlogged flow."""
 from harness import sched as S
+from mc import explore
 
 PROPERTY = "C13"
 CLAUSES = ["C13.noraise", "C13.once", "C13.time", "C13.fifo", "C13.strict"]
@@ -39,8 +40,10 @@ def plan(tier, seed):
     # a flow-to-class function is only an annotation for SP: service still follows the flow's own priority
     for tab in ([[0, 1], [1, 3], [2, 2]], [[0, 3], [1, 1], [2, 2]]):
         cfgs.append(dict(sched="SP", table=tab, rate=8, flows=[0, 1, 2], sizes=[1], N=4 if quick else 5, gaps=["S", 1], order=0, map="mod2"))
+    # every configuration once more with long fixed workloads (state that only breaks after hundreds of packets)
+    nlong = explore.add_long(cfgs, 300 if quick else 1000)
     return {"cfgs": cfgs, "budget": None,
-            "bound": "2 flows: N<=%d full menu, N<=%d reduced; 3 flows: N<=%d full menu, N<=%d on {same,+1} (deep backlogs)" % (n2 - 1, n2, 3 if quick else 4, 5 if quick else 6)}
+            "bound": ("%d long fixed workloads (periodic arrival patterns); " % nlong) + ("2 flows: N<=%d full menu, N<=%d reduced; 3 flows: N<=%d full menu, N<=%d on {same,+1} (deep backlogs)" % (n2 - 1, n2, 3 if quick else 4, 5 if quick else 6))}
 
 
 def execute(ch, cfg):
